@@ -17,17 +17,19 @@ import (
 // C01 — protected round trip between opposite roles of one IKE SA.
 
 type c01Case struct {
-	K       string  `json:"k"` // rt | nil
-	Name    string  `json:"name"`
-	M       ref.Msg `json:"m"`
-	Suite   int     `json:"suite"`
-	Pattern int     `json:"pattern"`
-	SenderI bool    `json:"sender_initiator"`
-	ParseH  bool    `json:"parsed_header"`
-	Env     []int   `json:"env,omitempty"` // choice prefix for the random-source seam
-	Fits    bool    `json:"fits"`
-	Warm    int     `json:"warm"` // 0: fresh key objects; 1/2: both key objects first carry a long / an empty message (history on one SA)
-	PadOctet int    `json:"pad_octet"` // > 0: the random source serves the constant octet PadOctet-1 (every outcome of the random padding)
+	K         string  `json:"k"` // rt | nil
+	Name      string  `json:"name"`
+	M         ref.Msg `json:"m"`
+	Suite     int     `json:"suite"`
+	Pattern   int     `json:"pattern"`
+	SenderI   bool    `json:"sender_initiator"`
+	ParseH    bool    `json:"parsed_header"`
+	Env       []int   `json:"env,omitempty"` // choice prefix for the random-source seam
+	Fits      bool    `json:"fits"`
+	Warm      int     `json:"warm"`                  // 0: fresh key objects; 1/2: both key objects first carry a long / an empty message (history on one SA)
+	PadOctet  int     `json:"pad_octet"`             // > 0: the random source serves the constant octet PadOctet-1 (every outcome of the random padding)
+	HMode     int     `json:"header_mode,omitempty"` // with ParseH: 0 header parsed from the datagram; 1 from its first 28 octets only; 2 from a receive buffer that is reused before DecodeDecrypt runs on a copy; 3 built with NewHeader from peeked fields
+	FailFirst int     `json:"fail_first,omitempty"`  // > 0: a first protection attempt fails (1..3: the random source fails at read FailFirst-1; 4: incomplete key set) and the caller retries with the same message object
 }
 
 // warmMsg is the message a "used" SA has carried before the case under test.
@@ -111,6 +113,17 @@ func runC01(c *engine.Ctx) {
 						evalC01(c, c01Case{K: "rt", Name: name, M: m, Suite: si, Pattern: pat, SenderI: sI, ParseH: ph, Fits: true})
 						if pat == 2 {
 							evalC01(c, c01Case{K: "rt", Name: name, M: m, Suite: si, Pattern: pat, SenderI: sI, ParseH: ph, Fits: true, Warm: 1 + (si+b2int(sI)+b2int(ph))%2})
+							if ph {
+								// other ways a receiver may have obtained the header object
+								for hm := 1; hm <= 3; hm++ {
+									evalC01(c, c01Case{K: "rt", Name: name, M: m, Suite: si, Pattern: pat, SenderI: sI, ParseH: true, HMode: hm, Fits: true})
+								}
+							} else if len(m.P) <= 1 {
+								// a failed first attempt followed by a retry with the same message object
+								for ff := 1; ff <= 4; ff++ {
+									evalC01(c, c01Case{K: "rt", Name: name, M: m, Suite: si, Pattern: pat, SenderI: sI, Fits: true, FailFirst: ff})
+								}
+							}
 						}
 					}
 				}
@@ -253,6 +266,36 @@ func evalC01env(c *engine.Ctx, cs c01Case, r *engine.Run) {
 		c.Violate("build-error", errStr(err), cs)
 		return
 	}
+	if cs.FailFirst > 0 {
+		// first attempt fails; whatever it fails on, a later successful protection of the same message object
+		// must carry the message the caller built
+		var ferr error
+		var fpi *engine.PanicInfo
+		if cs.FailFirst <= 3 {
+			script := make([]int, cs.FailFirst)
+			script[cs.FailFirst-1] = 1
+			fs := engine.NewSeam(engine.NewReplayRun(script), []int{engine.AnsA, engine.AnsErr})
+			rst := engine.Install(fs)
+			fpi = engine.Catch(func() { _, ferr = ike.EncodeEncrypt(lm, saS, roleOf(cs.SenderI)) })
+			rst()
+		} else {
+			bad, _ := univ.NewSA(ks)
+			bad.Encr_r = nil // refused for either role (the sender's own missing cipher object is outside every listed property: it panics for the initiator role)
+			fs := engine.NewSeam(nil, nil)
+			rst := engine.Install(fs)
+			fpi = engine.Catch(func() { _, ferr = ike.EncodeEncrypt(lm, bad, roleOf(cs.SenderI)) })
+			rst()
+		}
+		if fpi != nil {
+			c.Violate(fpi.Sig(), fmt.Sprintf("EncodeEncrypt(%s, %v) panics in an attempt that must fail: %s", cs.Name, ks.Suite, fpi.Value), cs)
+			return
+		}
+		if ferr == nil {
+			c.Count("first_attempt_did_not_fail", 1) // fewer reads than the script covers
+			return
+		}
+		c.Count("retries_after_failed_attempt", 1)
+	}
 	seam := engine.NewSeam(r, []int{engine.AnsA, engine.AnsZero, engine.AnsFF, engine.AnsShort})
 	if cs.PadOctet > 0 {
 		seam.Default = engine.AnsConst + cs.PadOctet - 1
@@ -261,6 +304,10 @@ func evalC01env(c *engine.Ctx, cs c01Case, r *engine.Run) {
 	var b []byte
 	pi := engine.Catch(func() { b, err = ike.EncodeEncrypt(lm, saS, roleOf(cs.SenderI)) })
 	restore()
+	if cs.FailFirst > 0 && err != nil && pi == nil {
+		c.Count("retry_refused", 1) // no claim: the property speaks about messages that were protected
+		return
+	}
 	if r != nil {
 		cs.Env = r.Choices()
 	}
@@ -281,7 +328,26 @@ func evalC01env(c *engine.Ctx, cs c01Case, r *engine.Run) {
 	}
 	var hdr *message.IKEHeader
 	if cs.ParseH {
-		hdr, err = message.ParseHeader(b)
+		switch cs.HMode {
+		case 0:
+			hdr, err = message.ParseHeader(b)
+		case 1:
+			hdr, err = message.ParseHeader(b[:28:28])
+		case 2:
+			rx := append([]byte(nil), b...)
+			hdr, err = message.ParseHeader(rx)
+			for i := range rx {
+				rx[i] = 0xA5 // the receive buffer takes the next datagram; DecodeDecrypt gets the caller's copy b
+			}
+		case 3:
+			var ph *message.IKEHeader
+			ph, err = message.ParseHeader(b)
+			if err == nil {
+				hdr = message.NewHeader(ph.InitiatorSPI, ph.ResponderSPI, ph.ExchangeType, ph.Flags&message.ResponseBitCheck != 0, ph.Flags&message.InitiatorBitCheck != 0, ph.MessageID, ph.NextPayload, nil)
+				hdr.Flags = ph.Flags
+				hdr.MajorVersion, hdr.MinorVersion = ph.MajorVersion, ph.MinorVersion
+			}
+		}
 		if err != nil {
 			c.Violate("parse-header-error", errStr(err), cs)
 			return
@@ -291,6 +357,12 @@ func evalC01env(c *engine.Ctx, cs c01Case, r *engine.Run) {
 	pi = engine.Catch(func() { got, err = ike.DecodeDecrypt(b, hdr, saR, roleOf(!cs.SenderI)) })
 	c.Traces++
 	tag := fmt.Sprintf("sender=%s/hdr=%v", map[bool]string{true: "I", false: "R"}[cs.SenderI], cs.ParseH)
+	if cs.HMode != 0 {
+		tag += fmt.Sprintf("(mode %d)", cs.HMode)
+	}
+	if cs.FailFirst != 0 {
+		tag += "/retry-after-failed-attempt"
+	}
 	if cs.Warm != 0 {
 		tag += "/used-sa"
 	}
